@@ -138,6 +138,13 @@ class FieldCollection(FieldBase):
         if labels is not None:
             self.labels = labels  # type: ignore
 
+    def __setstate__(self, state: dict[str, Any]) -> None:
+        super().__setstate__(state)
+        # link the data of the individual fields back to the data of the collection,
+        # since serialization does not preserve that they share the same memory
+        for field, field_slice in zip(self._fields, self._slices):
+            field._data_flat = self._data_full[field_slice]
+
     def __repr__(self):
         """Return instance as string."""
         fields = []
